@@ -219,14 +219,27 @@ func (v *Vue) parseObjectPairs(ctx VueContext, content string, classObject bool)
 			continue
 		}
 
-		// Split by colon
-		colonIdx := strings.Index(item, ":")
+		// Split at the first colon outside quotes: a quoted key may contain colons ('md:flex')
+		colonIdx := -1
+		quote := byte(0)
+		for i := 0; i < len(item) && colonIdx == -1; i++ {
+			switch c := item[i]; {
+			case quote != 0:
+				if c == quote {
+					quote = 0
+				}
+			case c == '\'' || c == '"':
+				quote = c
+			case c == ':':
+				colonIdx = i
+			}
+		}
 		if colonIdx == -1 {
 			continue
 		}
 
 		key := strings.TrimSpace(item[:colonIdx])
-		key = strings.Trim(key, "'")
+		key = strings.Trim(key, "'\"")
 		valueExpr := strings.TrimSpace(item[colonIdx+1:])
 
 		// In a class object the value only decides whether the key is included: it is read as a
@@ -305,7 +318,8 @@ func (v *Vue) buildClassString(pairs []string) string {
 			continue
 		}
 
-		colonIdx := strings.Index(pair, ":")
+		// the value is the text after the last colon (true or false); the class name may contain colons
+		colonIdx := strings.LastIndex(pair, ":")
 		if colonIdx == -1 {
 			continue
 		}
